@@ -83,23 +83,24 @@ R10 = {
  "C19": "a pointer-receiver MarshalJSON is never on a configuration type stored by value",
 }
 R11 = {
- "C01": "an empty query string is forwarded: the query variable is set whenever the target has a query and the '?' is decided on the variable being set",
+ "C07": "a fresh stream context also behind an answered decode error",
+ "C01": "an empty query string is forwarded: the query variable is set whenever the target has a query and the '?' is decided on the variable being set; the HTTP/1 client decides on a bodiless HEAD response from the request it sent; an HTTP/2 HEAD response keeps the upstream's Content-Length; a thrift ONEWAY message is a oneway request",
  "C02": "bytes an HTTP/1 upstream sent beyond the response retire the connection (leftover in the reader leads to OnGoAway)",
  "C03": "the request-sent flag is only set together with the global deadline; a retry does not use up a round of the bounded phase loop",
- "C04": "'no virtual host' only without a default (decision table over {-1, other}); the host of an address without port is normalised like one with a port; a matcher constructor's nil result is never stored; the RPC literal shortcut is armed only for a non-regex matcher",
+ "C04": "'no virtual host' only without a default (decision table over {-1, other}); the host of an address without port is normalised like one with a port; a matcher constructor's nil result is never stored; the RPC literal shortcut is armed only for a non-regex matcher; the key/value route index keeps the first route of a key/value",
  "C06": "a weighted-cluster entry keeps its weight plus what an entry of the same name holds (entries add up to the total); the weighted pick is tried hosts x (max/min weight) times before the unweighted fallback",
- "C08": "a stream-level error of the HTTP/2 framer leaves its frame consumed (typestate over the error's type test and Drain; two recorded findings)",
- "C10": "every receive entry of a counted downstream stream drives the phase loop that un-counts it; no stream is reset while the connection's stream table lock is held",
- "C11": "a buffer filled with the bytes to hand over starts empty; a listener configured without a host matches the inherited wildcard socket",
+ "C08": "a stream-level error of the HTTP/2 framer leaves its frame consumed (typestate over the error's type test and Drain; two recorded findings); server callbacks used only where they exist; an impossible tars length prefix is a decode error; the loop goes on behind an error only where the buffer is shown to have got shorter",
+ "C10": "every receive entry of a counted downstream stream drives the phase loop that un-counts it; no stream is reset while the connection's stream table lock is held; a half-sent oneway request is reset; the counter moves on every path (no exception for an unlimited resource); in all three pools a stream is created and gets its accounting listener in one critical section shared with the close path",
+ "C11": "a buffer filled with the bytes to hand over starts empty; a listener configured without a host matches the inherited wildcard socket; in-flight trailers processed after a graceful GOAWAY; a handed-over unix listener keeps its path; pool Shutdown notifies clients outside the pool lock; the drain counter cannot be excluded by the metrics configuration (one recorded finding)",
  "C12": "a removed listener is deleted from the stored configuration; an update of an existing listener that is refused has replaced nothing (one recorded finding: refusal by the TLS context)",
- "C13": "each tls context of a listener is registered under its own provider index (loop-variant argument)",
- "C14": "a local reply cancels a pending re-run of the receiver filters",
+ "C13": "each tls context of a listener is registered under its own provider index (loop-variant argument); an unusable cluster tls config fails closed; matched names are lower-cased; plaintext hand-back only without providers or with the inspector",
+ "C14": "a local reply cancels a pending re-run of the receiver filters; a pass of another phase starts at the first filter; the cursor is not written after the status handler of a stopped or terminated pass",
  "C15": "every call of the subset combination builder passes an index inside the key list (linear bounds)",
  "C16": "a health-check timeout event is attributed to its check before it counts as a failure",
- "C17": "a configured num_retries is used as it is; every route rule type's FinalizeRequestHeaders applies the base rule's header actions; a case-insensitive path match hands the rewrite the request's own spelling; a retry arms the global timer only behind the never-sent edge",
+ "C17": "a configured num_retries is used as it is; every route rule type's FinalizeRequestHeaders applies the base rule's header actions; a case-insensitive path match hands the rewrite the request's own spelling; a retry arms the global timer only behind the never-sent edge; a one-character regex_rewrite pattern is kept",
  "C18": "a HEADERS frame with an empty fragment is accepted (the refusal implies a fragment length below 0, linear bounds); the peer's SETTINGS_HEADER_TABLE_SIZE reaches the HPACK encoder on both connection types",
  "C19": "the stored cluster_manager section keeps every field of the loaded one except the cluster lists",
- "C20": "raw JSON sections (extend configs) reach the admin surface only through a redactor that walks the JSON; the walk writes only into the tree encoding/json allocated for it",
+ "C20": "raw JSON sections (extend configs) reach the admin surface only through a redactor that walks the JSON; the walk writes only into the tree encoding/json allocated for it; raw static resources pass the raw redactor; the envoy style /config_dump needs a redactor (one recorded finding)",
 }
 GENERIC = "generic hygiene over the property's packages: no loop-variable address escapes its iteration, every mutex acquired in a function is released on every path to its return and not re-acquired in a callee, a field accessed through sync/atomic is never accessed plainly outside construction (frozen exceptions), storage given back to a pool is not returned or stored, no append onto a loop-invariant slice whose result is kept, no signed remainder of a converted unsigned 64-bit value"
 props = [json.loads(l)['id'] for l in open('/verif/properties.jsonl')]
